@@ -84,7 +84,18 @@ def _cli_pool(c):
         return CleavageParams(enzyme=ps['rule'], exception=ps['exc'], miscleavage=int(ps['k']), min_mw=float(ps['min_mw']),
                               min_length=int(ps['min_len']), max_length=int(ps['max_len']))
     idx = os.path.join(d, 'index')
-    _cli.run(['generateIndex', '-g', g, '-a', a, '-p', p, '-o', idx, '--quiet'] + cl(c['params'][0]))
+    force = []
+    if c.get('prior_world'):
+        # history: the same directory first indexes ANOTHER reference with every parameter set, then
+        # generateIndex --force replaces the reference; no pool of the replaced proteome may survive
+        dp = os.path.join(d, 'prior')
+        os.makedirs(dp)
+        g0, a0, p0 = G.write_world(c['prior_world'], dp)
+        _cli.run(['generateIndex', '-g', g0, '-a', a0, '-p', p0, '-o', idx, '--quiet'] + cl(c['params'][0]))
+        for ps in c['params'][1:]:
+            _cli.run(['updateIndex', '--index-dir', idx, '--quiet'] + cl(ps))
+        force = ['--force']
+    _cli.run(['generateIndex', '-g', g, '-a', a, '-p', p, '-o', idx, '--quiet'] + force + cl(c['params'][0]))
     for ps in c['params'][1:]:
         _cli.run(['updateIndex', '--index-dir', idx, '--quiet'] + cl(ps))
     pools = []
